@@ -38,6 +38,15 @@ CLAIMED = {
  "C20": ("pipeline-shape def-use rules + method-set selection depth (declared vs promoted) + reaching-condition truth tables + lock dominance (go/types + go/ssa)",
          "Decides that transforming source/decoder are translate -> inner(translated type) -> reverse-translate(same transformer) pipelines returning exactly the reverse-translated value and each tested error (wrapped, with a zero value); that the watch arguments handed to a wrapped watcher declare every value-carrying WatchArgs method themselves (not promoted), reverse-translate and forward to the same-named wrapped method; Blank's delegate / refuse-watcher-before-any-write / Done-forwarding predicates and that every access to its state is under its mutex; ReformatDialsTagSource wraps with a dials-tag reformatter.",
          "Not decided: the values flowing through (C10 covers the transformer's bookkeeping). Trusted: inner sources honour their contracts."),
+ "C11": ("resolved mangler-chain extraction (types + constructor constants) + dominance/def-use on the lookup loop + who-may-call + error-propagation hops (go/ssa)",
+         "Decides the environment source's pipeline and lookup discipline: the five-mangler chain by resolved type and constants; os.LookupEnv is the only environment API; a field is written only under its ok result, with the looked-up string, at the index whose dialsenv tag (prefixed exactly when Prefix != \"\") was looked up; nothing in the repository writes the environment; a parse error is tested and returned at each of the four hops up to Value; a nil *string stays unset.",
+         "Not decided: generated names and parsed values (runtime strings; C15/C19 decide their structural parts)."),
+ "C14": ("resolved mangler-chain extraction + reaching-condition checks of AliasMangler.Unmangle + kind-totality of its set-predicate (go/ssa)",
+         "Decides that the alias mangler is the first, unconditional element of every alias-capable chain (env, flag, pflag, ez file decoder) with the documented tag list; that Unmangle returns the both-set error (naming the field) only when both copies are set and no value when both are set; that all set-tests use one predicate which never calls IsNil on a non-nilable kind; that the mangler recurses into both copies and strips the alias tags.",
+         "Not decided: produced names/values; the transformer's positional bookkeeping (C10)."),
+ "C18": ("call-graph funnel + argument resolution of the source list and Params literal + dominance/def-use ordering rules + extension truth table (go/ssa)",
+         "Decides which calls happen in which order with which arguments in the single function all ez entry points funnel into: sources = (Blank, env, flags) over the caller's defaults; Params delays verification and suppresses global callbacks (constants) and forwards both callbacks; ConfigPath is evaluated on the View of that first stack; the file source (watching iff WatchConfigFile) enters only via SetSource on that Blank; every success return follows a tested EnableVerification, which on the file path follows a successful SetSource; one Events value is drained; failures are returned; extension table; alias first and set-to-slice in the file chain.",
+         "Not decided: values. Relies on C04/C07/C09 (dials), C14 (alias placement), C20 (Blank) for what the called operations guarantee."),
 }
 
 NOT_YET = {}
